@@ -2,7 +2,9 @@
 // Schedule clause: the real IterativeReconstruction::reconstruct loop (OSMAPOSL / OSSPS) with a recording objective
 // function; time() / srand() / rand() are behind the simulator (simulated clock incl. jumps, three rand modes, a foreign
 // consumer of rand() between sub-iterations); restart at an arbitrary sub-iteration.
-// Partition clause (sampled): find_basic_vs_nums_in_subset + related view/segment numbers over drawn configurations.
+// Partition clause (sampled): find_basic_vs_nums_in_subset + related view/segment numbers over drawn configurations, and the
+// view/segment/TOF groups that really reach recording projectors from the projectors' own whole-data-set loops, the objective
+// function's gradient and FBP2D.
 #include "stir_util.h"
 #include "stir/ProjDataInMemory.h"
 #include "stir/recon_buildblock/ProjMatrixByBinUsingRayTracing.h"
@@ -14,6 +16,15 @@
 #include "stir/OSMAPOSL/OSMAPOSLReconstruction.h"
 #include "stir/OSSPS/OSSPSReconstruction.h"
 #include "stir/ViewSegmentNumbers.h"
+#include "stir/recon_buildblock/ForwardProjectorByBinUsingProjMatrixByBin.h"
+#include "stir/recon_buildblock/BackProjectorByBinUsingProjMatrixByBin.h"
+#include "stir/recon_buildblock/ProjectorByBinPair.h"
+#include "stir/analytic/FBP2D/FBP2DReconstruction.h"
+#include "stir/RelatedViewgrams.h"
+#include "stir/RegisteredParsingObject.h"
+#include "stir/ProjDataInterfile.h"
+#include <sstream>
+#include <tuple>
 #include <set>
 #include <map>
 
@@ -295,6 +306,308 @@ op_partition(const Plan& p, const Op& op)
   (void)p;
 }
 
+
+// ---- "processed" clause: what really reaches the projectors.  Recording projectors stand between the library's loops over
+// view/segment groups (ForwardProjectorByBin::forward_project(ProjData&..), BackProjectorByBin::back_project(ProjData..), the
+// objective function's distributable computation, FBP2D) and the real matrix projectors they delegate to.
+typedef std::tuple<int, int, int> SVT; // segment, view, TOF bin
+struct Seen
+{
+  std::vector<SVT> fwd, bck;
+};
+
+class RecFwd : public ForwardProjectorByBin
+{
+public:
+  RecFwd(const shared_ptr<ProjMatrixByBin>& m, Seen* seen)
+      : inner(new ForwardProjectorByBinUsingProjMatrixByBin(m)),
+        seen(seen)
+  {}
+  void set_up(const shared_ptr<const ProjDataInfo>& pdi, const shared_ptr<const DiscretisedDensity<3, float>>& d) override
+  {
+    ForwardProjectorByBin::set_up(pdi, d);
+    inner->set_up(pdi, d);
+  }
+  const DataSymmetriesForViewSegmentNumbers* get_symmetries_used() const override { return inner->get_symmetries_used(); }
+  std::string get_registered_name() const override { return "verif recording forward projector"; }
+
+protected:
+  void actual_forward_project(stir::RelatedViewgrams<float>& v, const DiscretisedDensity<3, float>& d, const int a0, const int a1, const int t0,
+                              const int t1) override
+  {
+    for (auto it = v.begin(); it != v.end(); ++it)
+      seen->fwd.push_back(SVT(it->get_segment_num(), it->get_view_num(), it->get_timing_pos_num()));
+    inner->set_input(d);
+    inner->forward_project(v, a0, a1, t0, t1);
+  }
+
+private:
+  shared_ptr<ForwardProjectorByBinUsingProjMatrixByBin> inner;
+  Seen* seen;
+};
+
+Seen* g_seen = nullptr; // for the object the parser makes (FBP2D takes its back projector from its parameter text only)
+shared_ptr<ProjMatrixByBin> g_matrix;
+
+class RecBck : public BackProjectorByBin
+{
+public:
+  RecBck(const shared_ptr<ProjMatrixByBin>& m, Seen* seen)
+      : matrix(m),
+        inner(new BackProjectorByBinUsingProjMatrixByBin(m)),
+        seen(seen)
+  {}
+  RecBck()
+      : RecBck(g_matrix, g_seen)
+  {}
+  // a copy has its own inner projector (the objective function sets a clone up for non-TOF data to compute the sensitivity)
+  RecBck(const RecBck& o)
+      : BackProjectorByBin(o),
+        matrix(o.matrix),
+        inner(o.inner->clone()),
+        seen(o.seen)
+  {}
+  std::string get_registered_name() const override { return "verif recording back projector"; }
+  void set_up(const shared_ptr<const ProjDataInfo>& pdi, const shared_ptr<const DiscretisedDensity<3, float>>& d) override
+  {
+    BackProjectorByBin::set_up(pdi, d);
+    inner->set_up(pdi, d);
+  }
+  const DataSymmetriesForViewSegmentNumbers* get_symmetries_used() const override { return inner->get_symmetries_used(); }
+  RecBck* clone() const override { return new RecBck(*this); }
+
+protected:
+  void actual_back_project(DiscretisedDensity<3, float>& d, const stir::RelatedViewgrams<float>& v, const int a0, const int a1, const int t0,
+                           const int t1) override
+  {
+    for (auto it = v.begin(); it != v.end(); ++it)
+      seen->bck.push_back(SVT(it->get_segment_num(), it->get_view_num(), it->get_timing_pos_num()));
+    inner->start_accumulating_in_new_target();
+    inner->back_project(v, a0, a1, t0, t1);
+    shared_ptr<DiscretisedDensity<3, float>> tmp(d.get_empty_copy());
+    inner->get_output(*tmp);
+    d += *tmp;
+  }
+
+private:
+  shared_ptr<ProjMatrixByBin> matrix;
+  shared_ptr<BackProjectorByBinUsingProjMatrixByBin> inner;
+  Seen* seen;
+};
+
+class RecBckParsed : public RegisteredParsingObject<RecBckParsed, BackProjectorByBin, RecBck>
+{
+public:
+  static const char* const registered_name;
+  RecBckParsed() { set_defaults(); }
+  RecBckParsed* clone() const override { return new RecBckParsed(*this); }
+  std::string get_registered_name() const override { return registered_name; }
+
+private:
+  void set_defaults() override {}
+  void initialise_keymap() override
+  {
+    this->parser.add_start_key("verif recording back projector parameters");
+    this->parser.add_stop_key("end verif recording back projector parameters");
+  }
+};
+const char* const RecBckParsed::registered_name = "verif recording";
+RecBckParsed::RegisterIt g_register_rec_bck;
+
+class RecPair : public ProjectorByBinPair
+{
+public:
+  std::string get_registered_name() const override { return "verif recording pair"; }
+  RecPair(const shared_ptr<ProjMatrixByBin>& m, Seen* seen)
+  {
+    this->forward_projector_sptr.reset(new RecFwd(m, seen));
+    this->back_projector_sptr.reset(new RecBck(m, seen));
+  }
+};
+
+// every (segment, view, TOF bin) of the range exactly once over all subsets
+void
+check_processed(const std::vector<std::vector<SVT>>& per_subset, const ProjDataInfo& pdi, int min_seg, int max_seg, const std::string& who,
+                const char* what)
+{
+  std::map<SVT, int> owner;
+  for (size_t s = 0; s < per_subset.size(); ++s)
+    for (const SVT& k : per_subset[s])
+      {
+        if (std::get<0>(k) < min_seg || std::get<0>(k) > max_seg)
+          sim::fail("processed:" + who + ":outside_range", "%s: (segment %d, view %d, TOF bin %d) was processed for subset %zu of %zu but segments %d..%d were asked for",
+                    what, std::get<0>(k), std::get<1>(k), std::get<2>(k), s, per_subset.size(), min_seg, max_seg);
+        auto it = owner.find(k);
+        if (it != owner.end())
+          sim::fail("processed:" + who + (it->second == (int)s ? ":twice_in_subset" : ":overlap"),
+                    "%s: (segment %d, view %d, TOF bin %d) was processed for subset %d and again for subset %zu (of %zu)", what, std::get<0>(k),
+                    std::get<1>(k), std::get<2>(k), it->second, s, per_subset.size());
+        owner[k] = (int)s;
+      }
+  for (int seg = min_seg; seg <= max_seg; ++seg)
+    for (int v = pdi.get_min_view_num(); v <= pdi.get_max_view_num(); ++v)
+      for (int k = pdi.get_min_tof_pos_num(); k <= pdi.get_max_tof_pos_num(); ++k)
+        if (!owner.count(SVT(seg, v, k)))
+          sim::fail("processed:" + who + ":missing", "%s: (segment %d, view %d, TOF bin %d) was processed for none of the %zu subsets", what, seg, v, k,
+                    per_subset.size());
+}
+
+void
+op_processed(const Plan& p, const Op& op)
+{
+  const int views = 2 * (1 + (int)(op.arg(0) % 12)); // 2..24
+  const int nrings = 1 + (int)(op.arg(1) % 3);
+  const bool tof = op.arg(2) % 3 == 0;
+  const bool sym = op.arg(3) % 2 == 0;
+  shared_ptr<Scanner> sc = vu::make_scanner(2 * views, nrings, tof ? 3 : 0);
+  shared_ptr<ProjDataInfo> pdi = vu::make_pdi(sc, 1, nrings - 1, views, std::min(5, views + 1), false, tof ? 1 : 0);
+  shared_ptr<ExamInfo> exam = vu::make_exam_info();
+  shared_ptr<VoxelsOnCartesianGrid<float>> image(
+      new VoxelsOnCartesianGrid<float>(exam, *pdi, 1.F, CartesianCoordinate3D<float>(0.F, 0.F, 0.F), CartesianCoordinate3D<int>(-1, 5, 5)));
+  image->fill(1.f);
+  shared_ptr<ProjMatrixByBinUsingRayTracing> matrix(new ProjMatrixByBinUsingRayTracing);
+  matrix->set_do_symmetry_90degrees_min_phi(sym);
+  matrix->set_do_symmetry_180degrees_min_phi(sym);
+  matrix->set_do_symmetry_swap_segment(sym);
+  matrix->set_do_symmetry_swap_s(sym);
+  matrix->set_do_symmetry_shift_z(sym);
+  // legal numbers of subsets for this symmetry set-up: ask the partition itself (a number is legal for the projector loops
+  // whenever it is at most the number of views; the objective function further asks for balance or subset sensitivities)
+  const int n = 1 + (int)(op.arg(4) % views);
+  shared_ptr<ProjDataInMemory> y(new ProjDataInMemory(exam, pdi));
+  {
+    sim::Rng r(sim::mix(p.seed, 19));
+    std::vector<float> v(y->size_all());
+    for (auto& x : v)
+      x = (float)(1 + r.below(5));
+    y->fill_from(v.begin());
+  }
+  sim::logf("processed views=%d rings=%d tof=%d sym=%d subsets=%d", views, nrings, (int)tof, (int)sym, n);
+  Seen seen;
+  const int which = (int)(op.arg(5) % 4);
+  if (which == 0)
+    {
+      // ForwardProjectorByBin::forward_project(ProjData&, image, subset, num_subsets, zero)
+      RecFwd fwd(matrix, &seen);
+      fwd.set_up(pdi, image);
+      std::vector<std::vector<SVT>> per((size_t)n);
+      ProjDataInMemory out(exam, pdi);
+      for (int s = 0; s < n; ++s)
+        {
+          seen.fwd.clear();
+          fwd.forward_project(out, *image, s, n, false);
+          per[(size_t)s] = seen.fwd;
+        }
+      check_processed(per, *pdi, pdi->get_min_segment_num(), pdi->get_max_segment_num(), "forward_projector",
+                      "ForwardProjectorByBin::forward_project of a whole data set by subsets");
+      sim::probe("processed_forward_projector");
+    }
+  else if (which == 1)
+    {
+      RecBck bck(matrix, &seen);
+      bck.set_up(pdi, image);
+      std::vector<std::vector<SVT>> per((size_t)n);
+      shared_ptr<DiscretisedDensity<3, float>> out(image->get_empty_copy());
+      for (int s = 0; s < n; ++s)
+        {
+          seen.bck.clear();
+          bck.back_project(*out, *y, s, n);
+          per[(size_t)s] = seen.bck;
+        }
+      check_processed(per, *pdi, pdi->get_min_segment_num(), pdi->get_max_segment_num(), "back_projector",
+                      "BackProjectorByBin::back_project of a whole data set by subsets");
+      sim::probe("processed_back_projector");
+    }
+  else if (which == 2)
+    {
+      // the objective function: sensitivity (back projection only) and gradient (forward and back) per subset
+      PoissonLogLikelihoodWithLinearModelForMeanAndProjData<target_type> obj;
+      obj.set_proj_data_sptr(y);
+      obj.set_projector_pair_sptr(shared_ptr<ProjectorByBinPair>(new RecPair(matrix, &seen)));
+      obj.set_use_subset_sensitivities(true);
+      obj.set_recompute_sensitivity(true);
+      obj.set_num_subsets(n);
+      const int max_seg = (int)(op.arg(6) % (pdi->get_max_segment_num() + 2)) - 1; // -1: all
+      if (max_seg >= 0)
+        obj.set_max_segment_num_to_process(max_seg);
+      const int hi = max_seg >= 0 ? max_seg : pdi->get_max_segment_num();
+      shared_ptr<target_type> target(image->clone());
+      std::vector<std::vector<SVT>> sens((size_t)n), gf((size_t)n), gb((size_t)n);
+      bool ok = true;
+      try
+        {
+          ok = obj.set_up(target) == Succeeded::yes;
+        }
+      catch (...)
+        {
+          ok = false;
+        }
+      if (!ok)
+        {
+          sim::probe("processed_objective_set_up_refused");
+          return;
+        }
+      // set_up computed the subset sensitivities: n back projections in subset order
+      {
+        // attribute the recorded back projections to subsets through a second, explicit request
+        shared_ptr<target_type> g(image->get_empty_copy());
+        for (int s = 0; s < n; ++s)
+          {
+            seen.fwd.clear();
+            seen.bck.clear();
+            obj.compute_sub_gradient_without_penalty_plus_sensitivity(*g, *image, s);
+            gf[(size_t)s] = seen.fwd;
+            gb[(size_t)s] = seen.bck;
+          }
+      }
+      check_processed(gf, *pdi, -hi, hi, "objective_forward", "gradient of the log-likelihood, forward projections by subset");
+      check_processed(gb, *pdi, -hi, hi, "objective_back", "gradient of the log-likelihood, back projections by subset");
+      sim::probe("processed_objective_function");
+    }
+  else
+    {
+      // FBP2D: every view of segment 0 (after single-slice rebinning) is filtered and back projected exactly once
+      const int combine = nrings > 1 && op.arg(6) % 2 ? 3 : 1;
+      const std::string dir = sim::scratch_dir();
+      {
+        ProjDataInterfile in(exam, pdi, dir + "/fbp_in.hs", std::ios::in | std::ios::out | std::ios::trunc);
+        in.fill(*y);
+      }
+      g_seen = &seen;
+      g_matrix = matrix;
+      std::ostringstream par;
+      par << "FBP2DParameters :=\ninput file := " << dir << "/fbp_in.hs\noutput filename prefix := " << dir
+          << "/fbp_out\nnum_segments_to_combine with SSRB := " << combine
+          << "\nBack projector type := verif recording\n verif recording back projector parameters :=\n"
+             " end verif recording back projector parameters :=\nEnd :=\n";
+      FBP2DReconstruction fbp;
+      bool ok = true;
+      shared_ptr<target_type> out(image->get_empty_copy());
+      try
+        {
+          std::istringstream in(par.str());
+          ok = fbp.parse(in) && fbp.set_up(out) == Succeeded::yes && fbp.reconstruct(out) == Succeeded::yes;
+        }
+      catch (...)
+        {
+          ok = false;
+        }
+      g_seen = nullptr;
+      g_matrix.reset();
+      if (!ok)
+        {
+          sim::probe("processed_fbp2d_refused");
+          return;
+        }
+      std::vector<std::vector<SVT>> per(1, seen.bck);
+      shared_ptr<ProjDataInfo> seg0 = vu::make_pdi(sc, 1, 0, views, std::min(5, views + 1), false, 0);
+      // (TOF data: FBP2D reads non-TOF viewgrams of TOF bin 0 only; that is outside this property)
+      if (!tof)
+        check_processed(per, *seg0, 0, 0, "fbp2d", "FBP2D, views of segment 0 filtered and back projected");
+      sim::probe("processed_fbp2d");
+    }
+}
+
 // "reported as balanced exactly when all subsets process the same number of viewgrams", on the real objective function
 void
 op_balanced(const Plan& p, const Op& op)
@@ -361,13 +674,18 @@ run(const Plan& p, sim::Result& res)
         op_schedule(p, op);
       else if (op.kind == "partition")
         {
-          op_partition(p, op);
           res.cls = "partition";
+          op_partition(p, op);
         }
       else if (op.kind == "balanced")
         {
-          op_balanced(p, op);
           res.cls = "balanced";
+          op_balanced(p, op);
+        }
+      else if (op.kind == "processed")
+        {
+          res.cls = "processed";
+          op_processed(p, op);
         }
     }
 }
@@ -385,7 +703,7 @@ gen(uint64_t seed, const std::string& tier, long idx)
   p.cfg["subset_sens"] = r.chance(0.7);
   Op o;
   const int k = (int)(idx % 10);
-  o.kind = k < 6 ? "schedule" : (k < 9 ? "partition" : "balanced");
+  o.kind = k < 5 ? "schedule" : (k < 7 ? "partition" : (k < 9 ? "processed" : "balanced"));
   for (int j = 0; j < 13; ++j)
     o.a.push_back((long)r.below(100000));
   p.ops.push_back(o);
